@@ -410,6 +410,24 @@ class Selector:
             if short == "get" and norm(n.func).endswith("environ.get") and n.args:
                 return [(s, ("envval", n.args[0].value if isinstance(n.args[0], ast.Constant) else "?")) for s in outs]
             return [(s, ("?", norm(n)[:40])) for s in outs]
+        if short == "join" and isinstance(n.func, ast.Attribute) and isinstance(n.func.value, ast.Constant) \
+                and isinstance(n.func.value.value, str) and len(n.args) == 1 and not n.keywords \
+                and not any(isinstance(x, (ast.Call, ast.Await, ast.Yield, ast.NamedExpr)) for x in ast.walk(n.args[0])):
+            # ", ".join(name for name, _ in table): message text put together from names; nothing is called, imported or bound
+            return [(st, ("?", "joined text"))]
+        if short == "append" and isinstance(n.func, ast.Attribute) and isinstance(n.func.value, ast.Name) \
+                and len(n.args) == 1 and not n.keywords and st.get(n.func.value.id) is not None \
+                and st.get(n.func.value.id)[0] == "tuple":
+            # a local list collecting names (for a message): the list grows by the value
+            res = []
+            for s, v in self.ev(n.args[0], st):
+                if v is None:
+                    res.append((s, None))
+                    continue
+                s = s.copy()
+                s.set(n.func.value.id, ("tuple", tuple(s.get(n.func.value.id)[1]) + (v,)))
+                res.append((s, ("none",)))
+            return res
         if f == "next" and n.args and not n.keywords:
             r = self.next_call(n, st)
             if r is not None:
@@ -482,6 +500,8 @@ class Selector:
                 out.append((s, True))
             elif v[0] == "const" and isinstance(v[1], (bool, int)):
                 out.append((s, bool(v[1])))
+            elif v[0] == "tuple":
+                out.append((s, len(v[1]) > 0))
             else:
                 out += self.fork(("?", norm(t)), s, t)
         return out
